@@ -38,7 +38,7 @@ def run(ctx):
     res = vlib.Result()
     res.rule = ("every git invocation of a run (git-dir, git-path, config-list x2, 4x config-get, for-each-ref, rev-parse --verify, "
                 "rev-list, cat-file --batch-check, cat-file --batch) x cut points {before start, 0, 1, mid-record, record boundary, all "
-                "bytes} x {exit 128, exit 2, exit 1, SIGKILL, SIGTERM} x {table, --json}; plus each object missing in turn, shallow, no "
+                "bytes} x {exit 128, 2, 1, 255, 141; SIGKILL, SIGTERM, SIGPIPE, SIGHUP, SIGINT, SIGSEGV, SIGABRT} x {table, --json}; plus each object missing in turn, shallow, no "
                 "repository, invalid options, unresolvable ROOT; non-trivial = distinct (fault, argv)")
     eng = SC.Engine(ctx)
     sc = scenario()
@@ -48,9 +48,11 @@ def run(ctx):
     invs = ["git-dir", "git-path", "config-list", "config-get:sizer.jsonVersion", "config-get:sizer.threshold", "config-get:sizer.names",
             "config-get:sizer.progress", "for-each-ref", "rev-parse-verify", "rev-list", "cat-file-batch-check", "cat-file-batch"]
     cuts = [-1, 0, 1, 20, 41, 60, 200, 10**9] if not quick else [-1, 0, 20, 41, 10**9]
-    ends = [{"exit": 128}, {"exit": 2}, {"exit": 1}, {"signal": "KILL", "exit": 137}, {"signal": "TERM", "exit": 143}]
+    ends = [{"exit": 128}, {"exit": 2}, {"exit": 1}, {"signal": "KILL", "exit": 137}, {"signal": "TERM", "exit": 143},
+            {"signal": "PIPE", "exit": 141}, {"signal": "HUP", "exit": 129}, {"signal": "INT", "exit": 130}, {"signal": "SEGV", "exit": 139},
+            {"signal": "ABRT", "exit": 134}, {"exit": 255}, {"exit": 141}]
     if quick:
-        ends = [{"exit": 128}, {"exit": 1}, {"signal": "KILL", "exit": 137}]
+        ends = [{"exit": 128}, {"exit": 1}, {"signal": "KILL", "exit": 137}, {"signal": "PIPE", "exit": 141}]
     outcomes = {"failed_as_required": 0, "accepted_by_protocol": 0, "timeouts": 0}
     try:
         base = {}
